@@ -255,11 +255,10 @@ class QuicSession:
         if self.quic_version == QuicVersion.UNKNOWN:
             self.quic_version = quic_version
 
+        # Initial packets are always protected with AES-128-GCM and keys derived from the client's first
+        # Destination Connection ID, whatever cipher suite is negotiated later (RFC 9001 5.2)
         if "Initial" not in list(self.decryptors.keys()):
             self.set_initial_decryptor(dcid, False)
-        elif self.tls_session.ciphersuite == b"\x13\x03" and not self.init_keys_done:
-            self.set_initial_decryptor(dcid, True)
-            self.init_keys_done = True
 
         isserver = self.packet_isserver(packet, dcid)
 
